@@ -1,12 +1,13 @@
 (* Dispatcher from property number to the correspondence entry point of its model. *)
 From Coq Require Import List ZArith.
-From GP Require Import Base.Val Base.GoStrings Model.Secure Model.Negotiate Model.Handshake Model.Stderr Model.Env Model.Stdio Model.MuxBroker Model.MuxTimed Model.Serve Model.ClientOps Model.Kill Model.Reattach Model.Tls Model.Interop Model.Resources Model.Conc Model.Crash Model.StartFail Model.LaunchOpts Model.Params Generated.
+From GP Require Import Base.Val Base.GoStrings Model.Secure Model.Negotiate Model.Handshake Model.Stderr Model.Env Model.Stdio Model.MuxBroker Model.MuxTimed Model.Serve Model.ClientOps Model.Kill Model.Reattach Model.Tls Model.Interop Model.Resources Model.Conc Model.Crash Model.StartFail Model.LaunchOpts Model.StartPipe Model.Params Generated.
 
 Definition check_prop (p : Z) (inp obs : V) : verdict :=
   match p with
   | 13%Z => check_secure inp obs
   | 3%Z => check_crash gen_crash_params inp obs
   | 105%Z => check_startfail gen_sf_params inp obs
+  | 205%Z => check_startpipe gen_lo_params gen_sf_params gen_hs_params inp obs
   | 106%Z => check_storm inp obs
   | 119%Z => check_startstorm inp obs
   | 18%Z => check_leftovers gen_res_params inp obs
